@@ -1,4 +1,5 @@
 import EupsModel.Lemmas.Vro
+import EupsModel.Lemmas.VroSelect
 /-! C03 — the version chosen is the one the Version Resolution Order designates.
 Property theorems only; the model is `Model/Vro.lean`, helper lemmas are in `Lemmas/Vro.lean`. -/
 namespace EupsModel.C03
@@ -413,5 +414,148 @@ theorem C03_fallback_via_cache_witness :
     resolve (mkCtx simpleOrd [sCurrent] db .files sLinux [true]) { exReq (some v30) 0 with } false defaultVro
       [sLinux, sGeneric] = .ok (some ⟨⟨v30, sGeneric, 0⟩, kCommandLine, kVersion⟩) := by
   decide
+
+/-! ## where `selectVRO` puts the -t and -T tags (default configuration) -/
+
+/-- example configuration: hooks.py as shipped, global tags `current stable beta`, a fresh instance -/
+def exCfg (keep exact : Bool) : VroCfg :=
+  { vroDict := [(kDefault, .flat defaultBase)], userVRO := false, keep := keep, exact := exact,
+    globalTags := [kCurrent, sStable, sBeta], cmdTags := [],
+    prevPreferred := [kVersion, kVersionExpr, kCurrent, sStable, kLatest] }
+def exArgs (tags postTags : List Str) (version : Bool) : VroArgs :=
+  { tags := tags, productDir := false, versionName := version, dbz := none, inexact := false, postTags := postTags }
+
+/-- Under the default configuration, with any -t and -T tags (registered global tags), keep / exact /
+inexact / version / -r in any combination, `selectVRO` succeeds and every -t tag stands on the
+resulting VRO behind nothing but `keep`, `type:exact`, `commandLine` and other -t tags — in
+particular in front of every version-type entry. -/
+theorem C03_pretag_before_version (c : VroCfg) (a : VroArgs) (d : DefaultCfg c)
+    (ht : ∀ t ∈ a.tags, GoodTag c t) (hp : ∀ t ∈ a.postTags, GoodTag c t) :
+    ∃ out, selectVRO c a = .ok out ∧
+      ∀ t ∈ a.tags, ∃ pre post, out.vro = pre ++ t :: post ∧
+        ∀ x ∈ pre, (x ∈ [kKeep, kTypeExact, kCommandLine] ∨ x ∈ a.tags) ∧ isVT x = false := by
+  obtain ⟨out, hsel, hvro⟩ := selectVRO_default d a ht hp
+  refine ⟨out, hsel, ?_⟩
+  intro t htm
+  have hnw := noWarn_placed (keep := c.keep) ht hp
+  have hm : movedByExact c a.tags t = false := by
+    rw [(ht t htm).moved]; simp [htm]
+  have hne : t ≠ kTypeExact := by
+    intro h; have := (ht t htm).noColon; rw [h] at this; revert this; decide
+  obtain ⟨pre, post, h1, h2⟩ := beforeP_cleanVro d a.tags a.inexact hnw hm hne (beforeP_placed c.keep a.tags a.postTags htm)
+  refine ⟨pre, post, by rw [hvro, h1], ?_⟩
+  intro x hx
+  refine ⟨h2 x hx, ?_⟩
+  rcases h2 x hx with h | h
+  · simp only [List.mem_cons, List.not_mem_nil, or_false] at h
+    rcases h with rfl | rfl | rfl <;> decide
+  · exact (ht x h).isVT
+
+/-- ... and no version-type entry stands behind a -T tag (one that is not also given with -t); the
+tag is on the VRO, and so are `version` and `versionExpr`. -/
+theorem C03_posttag_after_version (c : VroCfg) (a : VroArgs) (d : DefaultCfg c)
+    (ht : ∀ t ∈ a.tags, GoodTag c t) (hp : ∀ t ∈ a.postTags, GoodTag c t) :
+    ∃ out, selectVRO c a = .ok out ∧ kVersion ∈ out.vro ∧ kVersionExpr ∈ out.vro ∧
+      ∀ y ∈ a.postTags, y ∉ a.tags →
+        y ∈ out.vro ∧ ∀ pre post, out.vro = pre ++ y :: post → ∀ x ∈ post, isVT x = false := by
+  obtain ⟨out, hsel, hvro⟩ := selectVRO_default d a ht hp
+  have hnw := noWarn_placed (keep := c.keep) ht hp
+  have hv := kVersion_mem_placed c.keep a.tags a.postTags
+  refine ⟨out, hsel, ?_, ?_, ?_⟩
+  · rw [hvro]; exact mem_cleanVro_of_mem d a.tags a.inexact hnw hv.1 (by decide)
+  · rw [hvro]; exact mem_cleanVro_of_mem d a.tags a.inexact hnw hv.2 (by decide)
+  · intro y hy hyt
+    have gy := hp y hy
+    have hne : y ≠ kTypeExact := by
+      intro h; have := gy.noColon; rw [h] at this; revert this; decide
+    have hm : movedByExact c a.tags y = true := by
+      rw [gy.moved]; simpa using hyt
+    have hvt : ∀ x, isVT x = true → movedByExact c a.tags x = false :=
+      fun x hx => fixed_not_moved d a.tags (isVT_fixed hx)
+    constructor
+    · rw [hvro]
+      apply mem_cleanVro_of_mem d a.tags a.inexact hnw _ hne
+      simp [placed, hy]
+    · rw [hvro]
+      exact noVTBehind_cleanVro d a.tags a.inexact hnw hm hvt (noVTBehind_placed c.keep hp gy hyt)
+
+/-- non-vacuity: the example configuration is a default configuration, `beta` and `stable` are good
+tags, and `setup --keep -t beta -T stable p 1.0` gives
+`keep type:exact commandLine beta version versionExpr stable current` -/
+example : DefaultCfg (exCfg true false) :=
+  ⟨rfl, rfl, rfl, by decide, by
+    intro t h
+    have : t = kCurrent ∨ t = sStable ∨ t = sBeta := by simpa [exCfg] using h
+    rcases this with rfl | rfl | rfl <;> decide⟩
+example : GoodTag (exCfg true false) sBeta ∧ GoodTag (exCfg true false) sStable :=
+  ⟨⟨by decide, by decide, by decide, by decide⟩, ⟨by decide, by decide, by decide, by decide⟩⟩
+example : (selectVRO (exCfg true false) (exArgs [sBeta] [sStable] true)).map (·.vro)
+    = .ok [kKeep, kTypeExact, kCommandLine, sBeta, kVersion, kVersionExpr, sStable, kCurrent] := by decide
+/-- with `--exact`, tags not given with -t go to the end, behind `warn:1` -/
+example : (selectVRO (exCfg false true) (exArgs [sBeta] [sStable] false)).map (·.vro)
+    = .ok [kTypeExact, kCommandLine, sBeta, kVersion, kVersionExpr, sStable, kCurrent] := by decide
+
+/-- Pre-tags override table versions: below the top level, with nothing set up beforehand, if `x` is
+the only -t tag that designates a version of the product, that version is the answer on the VRO
+`selectVRO` built — whatever version (or expression) the table names. -/
+theorem C03_pretag_overrides_table_version (c : VroCfg) (a : VroArgs) (d : DefaultCfg c)
+    (ht : ∀ t ∈ a.tags, GoodTag c t) (hp : ∀ t ∈ a.postTags, GoodTag c t)
+    (out : VroOut) (hsel : selectVRO c a = .ok out)
+    (C : Ctx) (r : Req) (hr : r.already = none) (hdepth : 0 < r.depth)
+    (hplain : ∀ t ∈ a.tags, isPlainTag C t = true)
+    (x : Str) (hx : x ∈ a.tags) (p : Prod) (hxp : lookupTag C.db x r.name r.flavor = some p)
+    (hothers : ∀ t ∈ a.tags, t ≠ x → lookupTag C.db t r.name r.flavor = none) :
+    find C r out.vro = .ok (some ⟨p, x, x⟩) := by
+  obtain ⟨out', hsel', hpos⟩ := C03_pretag_before_version c a d ht hp
+  rw [hsel] at hsel'
+  cases hsel'
+  obtain ⟨A, B, hAB, hxA, hA⟩ := beforeP_first (P := fun y => (y ∈ [kKeep, kTypeExact, kCommandLine] ∨ y ∈ a.tags) ∧ isVT y = false)
+    (hpos x hx)
+  rw [find_eq_walk _ hr]
+  apply (walk_hit_iff C r out.vro ⟨p, x, x⟩).mpr
+  refine ⟨A, B, hAB, ?_, ?_⟩
+  · show lookupEntry C r x B = _
+    rw [lookupEntry_plainTag B (hplain x hx), hxp]
+  · intro a0 e b hsplit
+    have heA : e ∈ A := by rw [hsplit]; simp
+    obtain ⟨hmem, _⟩ := hA e heA
+    rcases hmem with h | h
+    · simp only [List.mem_cons, List.not_mem_nil, or_false] at h
+      rcases h with rfl | rfl | rfl
+      · have : (0 < r.depth) = True := by simp [hdepth]
+        simp [lookupEntry, show hasInfix kKeep kPath = false by decide, hdepth, hr]
+      · simp [lookupEntry, show hasInfix kTypeExact kPath = false by decide,
+          show (kTypeExact == kKeep) = false by decide, show (kTypeExact == kCommandLine) = false by decide,
+          show isVT kTypeExact = false by decide, show isWarn kTypeExact = false by decide,
+          show colon ∈ kTypeExact by decide, show isType kTypeExact = true by decide]
+      · simp [lookupEntry, show hasInfix kCommandLine kPath = false by decide,
+          show (kCommandLine == kKeep) = false by decide, hr]
+    · have hne : e ≠ x := fun hc => hxA (hc ▸ heA)
+      rw [lookupEntry_plainTag _ (hplain e h), hothers e h hne]
+
+/-- Post-tags apply only when no usable version is named: for a request that names a version or an
+expression the answer on the VRO `selectVRO` built is the answer of an initial piece of that VRO which
+does not contain the -T tag — so it does not depend on what the tag is assigned to. -/
+theorem C03_posttag_only_without_version (c : VroCfg) (a : VroArgs) (d : DefaultCfg c)
+    (ht : ∀ t ∈ a.tags, GoodTag c t) (hp : ∀ t ∈ a.postTags, GoodTag c t)
+    (out : VroOut) (hsel : selectVRO c a = .ok out)
+    (C : Ctx) (r : Req) (hn : r.named.isSome = true) (y : Str) (hy : y ∈ a.postTags) (hyt : y ∉ a.tags) :
+    ∃ pre e post, out.vro = pre ++ e :: post ∧ y ∉ pre ++ [e] ∧
+      find C r out.vro = find C r (pre ++ [e]) := by
+  obtain ⟨out', hsel', hv, _, hpos⟩ := C03_posttag_after_version c a d ht hp
+  rw [hsel] at hsel'
+  cases hsel'
+  obtain ⟨pre, e, post, hsplit, he, hpost⟩ := last_VT_split ⟨kVersion, hv, by decide⟩
+  refine ⟨pre, e, post, hsplit, ?_, ?_⟩
+  · intro hm
+    rcases List.mem_append.mp hm with hm | hm
+    · obtain ⟨p1, p2, rfl⟩ := List.append_of_mem hm
+      have := (hpos y hy hyt).2 p1 (p2 ++ e :: post) (by rw [hsplit]; simp) e (by simp)
+      rw [he] at this; cases this
+    · simp only [List.mem_singleton] at hm
+      have := (hp y hy).isVT
+      rw [hm, he] at this; cases this
+  · rw [hsplit]
+    exact C03_named_request_never_falls_through C r pre e post hn he hpost
 
 end EupsModel.C03
